@@ -54,6 +54,7 @@ Record K1 (deflate : Z -> list cop -> list byte) : Prop := {
   (* after a Flush the output is a sequence of complete non-final blocks (as read by the
      RFC 1951 model) for exactly the data written so far, ending in the sync marker *)
   k_chunk : forall lvl ops, level_ok lvl = true ->
+    (forall b, In b (cops_data ops) -> b < 256) ->
     let c := deflate lvl (ops ++ [CF]) in
     nonfinal_blocks c = Some (cops_data ops) /\ is_sync c = true /\ (5 <= length c)%nat
 }.
@@ -148,6 +149,7 @@ Definition xflate_roundtrip_stmt : Prop :=
     wrun deflate s0 (ops ++ [WClose]) = (obs, s) ->
     Forall (fun ob => snd ob = None \/ snd ob = Some EInvalid) obs ->
     snd (last obs (0, None)) = None ->
+    (forall b, In b (wops_data ops) -> b < 256) ->
     (* sizes within the int64 arithmetic of the index and the loop budget of the meta
        decoder model *)
     (Z.of_nat (length (w_sink s)) < 2 ^ 40)%Z ->
@@ -163,4 +165,5 @@ Definition xflate_is_deflate_stmt : Prop :=
     wrun deflate s0 (ops ++ [WClose]) = (obs, s) ->
     Forall (fun ob => snd ob = None \/ snd ob = Some EInvalid) obs ->
     snd (last obs (0, None)) = None ->
+    (forall b, In b (wops_data ops) -> b < 256) ->
     inflate (w_sink s) = mkIR None (wops_data ops) (N.of_nat (length (w_sink s))).
